@@ -576,6 +576,10 @@ def dro_world(steps):
             fs[1].suppset(z <= 0.5, z >= -3)
         elif s == "expt1":
             fs[1].exptset(rsome.E(z) <= 0.25)
+        elif s == "keq":
+            # equalities of expectations, one without a random variable in its text (a DecLinConstr), one with (a DecRoConstr)
+            m.st(rsome.E(w + x.sum()) == 1)
+            m.st(rsome.E(x[0] * z[0] + w) == 0.5)
         elif s == "k1":
             m.st(x >= z - 1)
         elif s == "k2":
@@ -623,6 +627,9 @@ DRO_HISTORIES = [
     (["obj", "k1", "do_math", "probB"], ["probB", "obj", "k1"]),
     (["obj", "k1", "k2", "solve", "expt1"], ["expt1", "obj", "k1", "k2"]),
     (["adapt", "obj", "k1", "dual", "do_math", "supp1", "probA"], ["adapt", "supp1", "probA", "obj", "k1"]),
+    # equalities of expectations survive a formulation as equalities
+    (["obj", "keq", "do_math", "k3"], ["obj", "keq", "k3"]),
+    (["adapt", "obj", "keq", "k1", "solve", "dual", "k3"], ["adapt", "obj", "keq", "k1", "k3"]),
 ]
 
 
